@@ -99,13 +99,14 @@ def _lin(*pairs, div):
 # locating discontinuities from the returned fields (not from the solver's own report)
 # ----------------------------------------------------------------------------------------------
 
-def locate_jumps(f, a, b, n=257, min_rel=1e-3, rounds=60, geometric=False, max_jumps=8, tol=1e-13):
+def locate_jumps(f, a, b, n=257, min_rel=1e-3, rounds=60, geometric=False, max_jumps=8, tol=1e-13, accept=0.3):
     """Find discontinuities of the scalar/vector function f on [a, b].
 
     f(x_array) -> array (npts,) or (nfields, npts).  A cell is a candidate if the *relative* jump of any
     field, |df|/(|f_i|+|f_{i+1}|+tiny), exceeds min_rel and exceeds 8x the median cell jump (so smooth steep
     regions are not candidates).  Each candidate is then bisected: a genuine discontinuity keeps its jump as
-    the bracket shrinks, a steep smooth region does not.  Returns a list of dicts
+    the bracket shrinks, a steep smooth region does not.  For solvers that smear a jump over one internal cell (class C)
+    pass tol = 2*cell/(b-a) and accept=0.1 so refinement stops at the cell.  Returns a list of dicts
     {x, left (fields at x-), right (fields at x+), rel (relative jump), width}.
     """
     xs = np.geomspace(a, b, n) if geometric else np.linspace(a, b, n)
@@ -145,7 +146,7 @@ def locate_jumps(f, a, b, n=257, min_rel=1e-3, rounds=60, geometric=False, max_j
             flo, fhi = Fs[:, k], Fs[:, k + 1]
         j1 = _reljump(flo, fhi, scale[:, 0])
         # a genuine jump keeps (most of) its size; a smooth steep region collapses with the bracket
-        if j1 > 0.3 * j0 and j1 > min_rel * 0.3:
+        if j1 > accept * j0 and j1 > min_rel * accept:
             out.append({"x": 0.5 * (lo + hi), "lo": lo, "hi": hi, "left": flo, "right": fhi, "rel": float(j1),
                         "width": hi - lo})
     out.sort(key=lambda d: -d["rel"])
